@@ -163,7 +163,7 @@ func (d *PathDecoder) referenceOriginsInBody(body hcl.Body, bodySchema *schema.B
 
 		if aSchema.IsDepKey && bodySchema.Targets != nil {
 			origins = append(origins, reference.DirectOrigin{
-				Range:       attr.Expr.Range(),
+				Range:       closedRange(attr.Expr.Range()),
 				TargetPath:  bodySchema.Targets.Path,
 				TargetRange: bodySchema.Targets.Range,
 			})
